@@ -13,6 +13,7 @@ template and data rendered alone on a fresh environment and a FIFO loop.
 from __future__ import annotations
 
 import asyncio
+import contextvars
 import gc
 
 from sim import aioloop as A
@@ -34,7 +35,7 @@ RULE = (
     "a peer cancelled at its k-th step or a peer's k-th data event raising. Each surviving task is compared with its isolated "
     "reference. Non-trivial = at least two render tasks alternate (A..B..A) in the executed task trace; distinct = digest "
     "(program, entries, data seeds, task trace)."
-    ' Environment classes Environment / NativeEnvironment / SandboxedEnvironment; generate_async consumers may suspend between chunks; programs tagged module_state / module_eval_ctx are classified as KF-C29-1 / KF-C37-1 only if a fresh environment per task removes the mismatch.'
+    ' Environment classes Environment / NativeEnvironment / SandboxedEnvironment; generate_async consumers may suspend between chunks; programs tagged module_state / module_eval_ctx are classified as KF-C29-1 / KF-C37-1 only if a fresh environment per task removes the mismatch. One run in five loads the i18n extension with newstyle callables whose catalog depends on the locale of the task (a ContextVar; task i runs in locale i mod 3, its reference too), has a partial that fails to compile inside a trimmed trans block as one more entry point, and uses no code memo; a trans block inside a template included without context is cached-module state (tag module_i18n, classified like module_state).'
 )
 ASSUMPTIONS = [
     "the isolated reference is the same jinja code rendering alone on a fresh environment (differential oracle)",
@@ -65,6 +66,16 @@ def setup() -> None:
     _setup_done = True
 
 
+I18N = [False]  # jinja2.ext.i18n, newstyle callables whose catalog depends on the TASK's locale (a ContextVar, as Babel integrations do)
+LOCALE = contextvars.ContextVar("sim_locale", default=0)
+_WORDS = (("TEXT", "Ding"), ("Texte", "chose"), ("testo", "cosa"))
+
+
+def _tr(s):
+    w = _WORDS[LOCALE.get() % 3]
+    return s.replace("text", w[0]).replace("thing", w[1])
+
+
 ENVCLS = [0]  # 0 Environment, 1 NativeEnvironment, 2 SandboxedEnvironment (set per run)
 
 
@@ -75,8 +86,13 @@ def _make_env(P, ae: int, lc: bool, cache_size: int, tape: Tape):
 
     env = (jinja2.Environment, NativeEnvironment, SandboxedEnvironment)[ENVCLS[0]](
         loader=jinja2.DictLoader(P.templates), enable_async=True, autoescape=AE_MODES[ae], cache_size=cache_size,
-        extensions=["jinja2.ext.loopcontrols"] if lc else [], bytecode_cache=CodeMemo(("c37", ae, lc, ENVCLS[0])),
+        extensions=(["jinja2.ext.loopcontrols"] if lc else []) + (["jinja2.ext.i18n"] if I18N[0] else []),
+        # (no code memo with the i18n extension: what one compilation leaves behind in the extension must be able to
+        # show in the next one, and the reference must compile for itself)
+        bytecode_cache=None if I18N[0] else CodeMemo(("c37", ae, lc, ENVCLS[0])),
     )
+    if I18N[0]:
+        env.install_gettext_callables(_tr, lambda s_, p_, n_: _tr(s_ if n_ == 1 else p_), newstyle=True)
 
     async def gf(x=0):
         await asyncio.sleep(GATE_DELAYS[tape.draw(len(GATE_DELAYS), "g")])
@@ -107,7 +123,8 @@ TG: dict = {}
 EXTRA_GLOBAL = [False]  # some tasks pass one more template-level global, a name no template reads (set per run)
 
 
-async def _render(env, entry: str, api: int, data: dict, fault_exc, gate_tape=None, extra=None):
+async def _render(env, entry: str, api: int, data: dict, fault_exc, gate_tape=None, extra=None, loc=0):
+    LOCALE.set(loc)  # this task's locale (each task runs in its own copy of the context)
     try:
         g_ = {"tg": TG[entry]} if entry in TG else None
         if extra is not None:
@@ -133,7 +150,7 @@ async def _render(env, entry: str, api: int, data: dict, fault_exc, gate_tape=No
         return ("raised", exc_key(e))
 
 
-def _reference(P, ae, lc, cache_size, entry, api, data_seed, globals_mode=False, extra=None):
+def _reference(P, ae, lc, cache_size, entry, api, data_seed, globals_mode=False, extra=None, loc=0):
     """The task alone: fresh environment of the same configuration, fresh FIFO loop, same data."""
     zero = Tape(streams={})
     env = _make_env(P, ae, lc, cache_size, zero)
@@ -145,7 +162,7 @@ def _reference(P, ae, lc, cache_size, entry, api, data_seed, globals_mode=False,
     try:
         # (the same template-level globals as in the run: an importer that has globals its imported template lacks gets
         # an UNCACHED module per import - documented - so the extra name is part of the task, not noise)
-        r, e = A.run_loop(loop, _render(env, entry, api, data, None, extra=extra))
+        r, e = A.run_loop(loop, _render(env, entry, api, data, None, extra=extra, loc=loc))
         if e is not None:
             raise e
         return r
@@ -171,7 +188,8 @@ def _concurrent(tape, P, ae, lc, cache_size, specs, fault, fresh_env_per_task=Fa
                 if i == 0 or shared_env is None:
                     env.globals.update(data)
                 data = {}
-            t = loop.create_task(_render(env, entry, api, data, fault_exc, tape, extra=i if (EXTRA_GLOBAL[0] and i % 2 == 1) else None), name=f"r{i}")
+            t = loop.create_task(_render(env, entry, api, data, fault_exc, tape, extra=i if (EXTRA_GLOBAL[0] and i % 2 == 1) else None,
+                                         loc=i % 3 if I18N[0] else 0), name=f"r{i}")
             tasks.append((t, ev))
         if fkind == 1:
             victim = tasks[ftask][0]
@@ -226,9 +244,18 @@ def run(tape: Tape) -> Outcome:
             ENVCLS[0] = 0
         P = W_.micro_program(tape)
         out.count("micro_program_runs")
+        I18N[0] = False
     else:
+        # one run in five: the i18n extension with newstyle callables whose catalog depends on the task's locale
+        I18N[0] = tape.draw(5, "m") == 4
+        out.count("runs_with_locale_dependent_gettext", 1 if I18N[0] else 0)
         P = Gen(tape, is_async=True, loopcontrols=lc, size=size, allow_module_state=tagged_ok, env_globals=True,
-                template_globals=True, native=ENVCLS[0] == 1, pair_den=8).generate()
+                template_globals=True, native=ENVCLS[0] == 1, pair_den=8, i18n=I18N[0]).generate()
+        if I18N[0]:
+            # a partial that does not compile (an expression inside a trimmed trans block): whoever asks for it gets the
+            # syntax error - alone or among others - and nobody else is affected by the failed compilation
+            P.templates["broken"] = "{% trans trimmed %}\n  Dear {{ o1.a }},\n  some text\n{% endtrans %}"
+            P.entry_points.append("broken")
     # template-level globals, fixed per template name (documented use); 'main' and 'base' are never
     # included or imported by others, so the documented "cached template keeps its globals" cannot interfere
     tg = {}
@@ -264,7 +291,7 @@ def run(tape: Tape) -> Outcome:
             out.violate(("stall",), stall=str(e), templates=P.templates, specs=specs)
             return out
         refs = [_reference(P, ae, lc, cache_size, entry, api, dseed, globals_mode,
-                           extra=i_ if (EXTRA_GLOBAL[0] and i_ % 2 == 1) else None)
+                           extra=i_ if (EXTRA_GLOBAL[0] and i_ % 2 == 1) else None, loc=i_ % 3 if I18N[0] else 0)
                 for i_, (entry, api, dseed) in enumerate(specs)]
         mism = []
         for i, (got, ref) in enumerate(zip(results, refs)):
@@ -304,7 +331,7 @@ def run(tape: Tape) -> Outcome:
         if mism:
             i = mism[0]
             sig = ("interference", "faulted-run" if info["fired"] else "fault-free", results[i][0], refs[i][0])
-            if "module_state" in P.tags:
+            if "module_state" in P.tags or ("module_i18n" in P.tags and I18N[0]):
                 # structured classifier for KF-C29-1: state retained by the environment's cached
                 # templates/modules; a fresh Environment per task must remove the mismatch
                 r2, _l2, _i2 = _concurrent(Tape(streams=tape.used()), P, ae, lc, cache_size, specs, fault, fresh_env_per_task=True, globals_mode=globals_mode)
